@@ -439,7 +439,35 @@ func (m *Mini) stmt(s ast.Stmt, env *menv) (miniCtl, []MV) {
 		return ctl, r
 	case *ast.ForStmt:
 		if s.Cond != nil || s.Init != nil || s.Post != nil {
-			m.fail(s, "for loop with a condition is outside the abstraction")
+			if !m.Counters {
+				m.fail(s, "for loop with a condition is outside the abstraction")
+			}
+			// counted loop over known integers: executed concretely on the abstract values
+			// (init; cond; post fold to constants or the fold fails), bounded.
+			scope := &menv{vars: map[types.Object]MV{}, parent: env}
+			if s.Init != nil {
+				if ctl, v := m.stmt(s.Init, scope); ctl != ctlNormal {
+					return ctl, v
+				}
+			}
+			for iter := 0; ; iter++ {
+				if iter > 64 {
+					m.fail(s, "counted loop does not terminate within the abstraction's bound")
+				}
+				if s.Cond != nil && !m.truth(s.Cond, scope) {
+					return ctlNormal, nil
+				}
+				ctl, r := m.block(s.Body.List, scope)
+				switch ctl {
+				case ctlBreak:
+					return ctlNormal, nil
+				case ctlReturn, ctlPanic:
+					return ctl, r
+				}
+				if s.Post != nil {
+					m.stmt(s.Post, scope)
+				}
+			}
 		}
 		// `for { … }`: one symbolic iteration; falling through means "the next iteration decides"
 		ctl, r := m.block(s.Body.List, &menv{vars: map[types.Object]MV{}, parent: env})
@@ -550,6 +578,20 @@ func (m *Mini) assign(s *ast.AssignStmt, env *menv) {
 				env.def(o, vals[i])
 				continue
 			}
+		}
+		if m.Counters && s.Tok != token.ASSIGN && s.Tok != token.DEFINE {
+			// x op= c on a known integer counter
+			binop := map[token.Token]token.Token{token.ADD_ASSIGN: token.ADD, token.SUB_ASSIGN: token.SUB, token.MUL_ASSIGN: token.MUL}
+			o := m.Info.Uses[id]
+			cur, _ := env.get(o)
+			cv, ok1 := cur.(constant.Value)
+			rv, ok2 := vals[i].(constant.Value)
+			if op, ok := binop[s.Tok]; ok && o != nil && ok1 && ok2 && cv.Kind() == constant.Int && rv.Kind() == constant.Int {
+				env.set(o, constant.BinaryOp(cv, op, rv))
+			} else if o != nil {
+				env.set(o, &MSym{Name: "opaque:" + id.Name})
+			}
+			continue
 		}
 		if o := m.Info.Uses[id]; o != nil {
 			env.set(o, vals[i])
